@@ -66,6 +66,41 @@ static inline size_t vstr_find(const vstr *s, const vstr *t, size_t pos) {
   }
   return VSTR_NPOS;
 }
+/* s.rfind(<one-character string>, pos): last occurrence starting at or before pos */
+static inline size_t vstr_rfind_c(const vstr *s, char c, size_t pos) {
+  if (s->len == 0) return VSTR_NPOS;
+  size_t i = pos < s->len - 1 ? pos : s->len - 1;
+  for (size_t n = 0; n <= VSTR_CAP; n++) { if (s->b[i] == c) return i; if (i == 0) break; i--; }
+  return VSTR_NPOS;
+}
+/* s.rfind(t, pos) */
+static inline size_t vstr_rfind(const vstr *s, const vstr *t, size_t pos) {
+  if (t->len > s->len) return VSTR_NPOS;
+  size_t i = s->len - t->len; if (pos < i) i = pos;
+  for (size_t n = 0; n <= VSTR_CAP; n++) {
+    int eq = 1;
+    for (size_t j = 0; j < t->len; j++) if (s->b[i + j] != t->b[j]) { eq = 0; break; }
+    if (eq) return i;
+    if (i == 0) break;
+    i--;
+  }
+  return VSTR_NPOS;
+}
+static inline int vstr_compare(const vstr *a, const vstr *b) {
+  size_t n = a->len < b->len ? a->len : b->len;
+  for (size_t i = 0; i < n; i++) if (a->b[i] != b->b[i]) return (unsigned char)a->b[i] < (unsigned char)b->b[i] ? -1 : 1;
+  return a->len == b->len ? 0 : (a->len < b->len ? -1 : 1);
+}
+static inline vstr vstr_substr(const vstr *s, size_t pos, size_t n);
+/* a.compare(pos, len, b) */
+static inline int vstr_compare3(const vstr *a, size_t pos, size_t len, const vstr *b) { vstr t = vstr_substr(a, pos, len); return vstr_compare(&t, b); }
+static inline char vstr_at_checked(const vstr *s, size_t i) { VSTR_REQUIRE(i < s->len, "std::string::at: index < size() (else std::out_of_range)"); return i < s->len ? s->b[i] : 0; }
+static inline char vstr_back(const vstr *s) { VSTR_REQUIRE(s->len > 0, "std::string::back on an empty string is undefined"); return s->len ? s->b[s->len - 1] : 0; }
+static inline char vstr_front(const vstr *s) { VSTR_REQUIRE(s->len > 0, "std::string::front on an empty string is undefined"); return s->b[0]; }
+static inline size_t vstr_find_first_of(const vstr *s, const char *set, size_t pos) {
+  for (size_t i = pos; i < s->len; i++) for (size_t j = 0; set[j]; j++) if (s->b[i] == set[j]) return i;
+  return VSTR_NPOS;
+}
 static inline int vstr_eq(const vstr *a, const vstr *b) {
   if (a->len != b->len) return 0;
   for (size_t i = 0; i < a->len; i++) if (a->b[i] != b->b[i]) return 0;
